@@ -201,11 +201,8 @@ def wfRealTok (t : List Char) : Bool :=
   | c :: r => if c = '-' then accTok .s0 r else accTok .s0 t
   | [] => false
 
-/-- parser.py `read_num` on the suffix starting at the number -/
-def readNum (s : List Char) : Option (Val × List Char) :=
-  let sign := s.head? == some '-'
-  let body := if sign then s.drop 1 else s
-  let p := scanNum 0 false body
+/-- the end of `read_num`: `float(t[p:i]) if use_float else int(t[p:i])` -/
+def finishNum (sign : Bool) (p : List Char × List Char × Bool) : Option (Val × List Char) :=
   let tok := if sign then '-' :: p.1 else p.1
   if p.2.2 then
     if wfRealTok tok then some (.real tok, p.2.1) else none
@@ -213,6 +210,11 @@ def readNum (s : List Char) : Option (Val × List Char) :=
     match readInt tok with
     | some n => some (.int n, p.2.1)
     | none => none
+
+/-- parser.py `read_num` on the suffix starting at the number -/
+def readNum (s : List Char) : Option (Val × List Char) :=
+  if s.head? = some '-' then finishNum true (scanNum 0 false (s.drop 1))
+  else finishNum false (scanNum 0 false s)
 
 /-- parser.py `read_sym` (module None; reserved names map to the same symbol) -/
 def readSym (s : List Char) : Val × List Char :=
